@@ -255,6 +255,31 @@ def recvAlts (s : St) : String × Option (List Byte) :=
     | some m => (" || ".intercalate ([s!"ret=1 msg={showB m} guards=ok ; avail={showB m}"] ++ ask), some m)
     | none => (" || ".intercalate (["ret=0 guards=ok ; avail=none", "ret=MissingData guards=ok ; avail=none"] ++ ask), none)
 
+/-- S for `dq peek n` with a destination: when no delivered message is waiting and the frame at the input
+    position is complete and well-formed, the bytes handed out are a prefix of its reference decoding and the
+    return value is their number (how far a preview gets is not prescribed), or the call reports an error and
+    hands out nothing — never bytes that are not in the message.  Everything else is not judged here. -/
+def peekAlts (s : St) (n : Nat) : String :=
+  let cur : Option (List Byte) :=
+    match fedFrames s with
+    | some (_, ds) => (ds[s.got + s.skip]?).join
+    | none => match specMsgs s with
+      | some (_, ms) => ms[s.got]?
+      | none => none
+  let c := match s.avail with
+    | some m => s!"avail={showB m}"
+    | none => if s.dq.codec.isSome ∨ s.dq.command then "avail=none" else "*"
+  match s.avail, cur with
+  | none, some m =>
+    if m.length > 48 then s!"* ; {c}" else
+    let top := min n m.length
+    let oks := (List.range (top + 1)).map fun k =>
+      s!"ret={k} out={if k = 0 then "-" else showB (m.take k)} guards=ok ; {c}"
+    let errs := ["BadArgument", "BadOperation", "MissingData", "MissingBuffer", "BadValue"].map fun e =>
+      s!"ret={e} out=- guards=ok ; {c}"
+    " || ".intercalate (oks ++ errs)
+  | _, _ => s!"* ; {c}"
+
 /-- S for `dq drain` on scripted bytes: the messages of the well-formed frames up to the first frame that is
     malformed or incomplete, then the reason for stopping -/
 def drainAltsFed (s : St) (ds : List (Option (List Byte))) : String :=
@@ -681,8 +706,8 @@ def step (s : St) (w : List String) : St × String :=
       | .ok (q, r, out) =>
         -- bytes of the target the call did not write keep the driver's fill byte
         let shown := if r > 0 then showB (out ++ List.replicate (min r.toNat n - out.length) 0xbe) else "-"
-        ({ s with dq := q }, s!"R ret={errName r} out={shown} guards=ok | C avail={msgText q} | I {dqI (errName r) q} | S {availAlts s}")
-      | x => (s, dqLine s!"model-{resName x}" s.dq (resName x) (availAlts s))
+        ({ s with dq := q }, s!"R ret={errName r} out={shown} guards=ok | C avail={msgText q} | I {dqI (errName r) q} | S {peekAlts s n}")
+      | x => (s, dqLine s!"model-{resName x}" s.dq (resName x) (peekAlts s n))
     | none => (s, "bad-op")
   | ["dq", "peek", n, "nodst"] =>
     if !s.dqReady then (s, "bad-op") else
